@@ -9,6 +9,7 @@ import (
 
 	_ "verif/harness/checks"
 	"verif/harness/vc"
+	"verif/harness/world"
 )
 
 func main() {
@@ -20,7 +21,27 @@ func main() {
 	only := flag.Int("case", -1, "run only this case")
 	out := flag.String("out", "", "partial result file")
 	info := flag.Bool("info", false, "print check metadata as JSON")
+	replica := flag.String("replica", "", "re-execute a recorded history (file) and write the outcomes to -out")
+	mode := flag.String("mode", "fresh", "replica mode: fresh|restart|twice")
 	flag.Parse()
+	if *replica != "" {
+		rec, err := world.LoadRecording(*replica)
+		if err != nil {
+			fmt.Fprintln(os.Stderr, "replica:", err)
+			os.Exit(3)
+		}
+		outs, err := world.Replay(rec, *mode)
+		if err != nil {
+			fmt.Fprintln(os.Stderr, "replica:", err)
+			os.Exit(3)
+		}
+		bz, _ := json.Marshal(outs)
+		if err := os.WriteFile(*out, bz, 0o644); err != nil {
+			fmt.Fprintln(os.Stderr, "replica:", err)
+			os.Exit(3)
+		}
+		return
+	}
 	if *info {
 		m := map[string]any{}
 		for _, id := range vc.IDs() {
